@@ -25,7 +25,32 @@ type T struct {
 	c    *vkit.Collector
 	used map[string]int
 	cap  map[string]int
-	seq  int
+	buf  []vkit.Case
+}
+
+// check buffers one correspondence case; flush hands them to the collector interleaved, so that
+// the expensive categories are spread evenly over the shards that coqc compiles in parallel.
+func (t *T) check(label, term string) { t.buf = append(t.buf, vkit.Case{Label: label, Term: term}) }
+func (t *T) flush() {
+	n := len(t.buf)
+	if n == 0 {
+		return
+	}
+	gcd := func(a, b int) int {
+		for b != 0 {
+			a, b = b, a%b
+		}
+		return a
+	}
+	stride := int(float64(n)*0.6180339887) | 1
+	for gcd(stride, n) != 1 {
+		stride += 2
+	}
+	for k := 0; k < n; k++ {
+		cs := t.buf[(k*stride)%n]
+		t.c.Check(cs.Label, cs.Term)
+	}
+	t.buf = nil
 }
 
 func (t *T) ok(cat string) bool {
@@ -86,10 +111,13 @@ func try(f func()) (panicked bool, msg string) {
 
 // ---- Coq term helpers ----
 
+// hz prints a uint64 as a hexadecimal Z literal (Coq parses these about twice as fast as the
+// 19-digit decimal ones, and parsing dominates the compile time of the case files).
+func hz(u uint64) string { return fmt.Sprintf("0x%x%%Z", u) }
 func zl(ids []uint64) string {
 	xs := make([]string, len(ids))
 	for i, c := range ids {
-		xs[i] = vkit.U(c)
+		xs[i] = hz(c)
 	}
 	return vkit.List(xs)
 }
@@ -194,25 +222,28 @@ func (s *S) union1(in []uint64, class string) []uint64 {
 	// [T]
 	t := s.t
 	cat := "union"
-	if len(in) > 24 {
+	if len(in) > 16 {
 		cat = "union-big"
 	}
 	if t.ok(cat) {
 		for _, v := range [][]uint64{in, srt} {
 			vu := toCU(v)
 			vu.Normalize()
-			c.Check(lbl("Normalize", v), eqL(vkit.App("cu_Normalize", zl(v)), zl(fromCU(vu))))
-			if len(in) > 24 {
+			s.t.check(lbl("Normalize", v), eqL(vkit.App("cu_Normalize", zl(v)), zl(fromCU(vu))))
+			if len(in) > 16 {
 				break
 			}
 		}
-		for _, v := range [][]uint64{in, srt, split} {
+		for k, v := range [][]uint64{in, srt, split} {
+			if len(in) > 16 && k == 0 {
+				continue
+			}
 			vu := toCU(v)
-			c.Check(lbl("IsValid", v), eqB(vkit.App("cu_IsValid", zl(v)), vu.IsValid()))
-			c.Check(lbl("IsNormalized", v), eqB(vkit.App("cu_IsNormalized", zl(v)), vu.IsNormalized()))
+			s.t.check(lbl("IsValid", v), eqB(vkit.App("cu_IsValid", zl(v)), vu.IsValid()))
+			s.t.check(lbl("IsNormalized", v), eqB(vkit.App("cu_IsNormalized", zl(v)), vu.IsNormalized()))
 		}
 		iu := toCU(in)
-		c.Check(lbl("LeafCellsCovered", in), eqZ(vkit.App("cu_LeafCellsCovered", zl(in)), vkit.Z(iu.LeafCellsCovered())))
+		s.t.check(lbl("LeafCellsCovered", in), eqZ(vkit.App("cu_LeafCellsCovered", zl(in)), vkit.Z(iu.LeafCellsCovered())))
 	}
 	return want
 }
@@ -237,8 +268,8 @@ func (s *S) invalidUnions(n int) {
 		s.checkValidity(v, "list with an invalid id")
 		if s.t.ok("invalid-union") {
 			vu := toCU(v)
-			s.c.Check(lbl("IsValid", v), eqB(vkit.App("cu_IsValid", zl(v)), vu.IsValid()))
-			s.c.Check(lbl("IsNormalized", v), eqB(vkit.App("cu_IsNormalized", zl(v)), vu.IsNormalized()))
+			s.t.check(lbl("IsValid", v), eqB(vkit.App("cu_IsValid", zl(v)), vu.IsValid()))
+			s.t.check(lbl("IsNormalized", v), eqB(vkit.App("cu_IsNormalized", zl(v)), vu.IsNormalized()))
 		}
 	}
 }
@@ -342,7 +373,7 @@ func (s *S) pair1(xraw, yraw []uint64, class string, fullProbes bool) {
 		if v == 1 {
 			a, b, cat = xraw, yraw, "pair-raw"
 		}
-		if len(a)+len(b) > 40 {
+		if len(a) > 14 || len(b) > 14 {
 			cat += "-big"
 		}
 		if !t.ok(cat) {
@@ -362,40 +393,38 @@ func (s *S) pair1(xraw, yraw []uint64, class string, fullProbes bool) {
 }
 
 func (s *S) tPair(a, b []uint64) {
-	c := s.c
 	A, B := zl(a), zl(b)
-	c.Check(lbl("FromUnion", a, b), eqL(vkit.App("cu_FromUnion", vkit.List([]string{A, B})), zl(fromCU(s2.CellUnionFromUnion(toCU(a), toCU(b))))))
+	s.t.check(lbl("FromUnion", a, b), eqL(vkit.App("cu_FromUnion", vkit.List([]string{A, B})), zl(fromCU(s2.CellUnionFromUnion(toCU(a), toCU(b))))))
 	var got []uint64
 	if p, _ := try(func() { got = fromCU(s2.CellUnionFromIntersection(toCU(a), toCU(b))) }); !p {
-		c.Check(lbl("FromIntersection", a, b), eqL(vkit.App("cu_FromIntersection", A, B), zl(got)))
+		s.t.check(lbl("FromIntersection", a, b), eqL(vkit.App("cu_FromIntersection", A, B), zl(got)))
 	}
 	if p, _ := try(func() { got = fromCU(s2.CellUnionFromDifference(toCU(a), toCU(b))) }); !p && len(got) <= 400 {
-		c.Check(lbl("FromDifference", a, b), eqL(vkit.App("cu_FromDifference", A, B), zl(got)))
+		s.t.check(lbl("FromDifference", a, b), eqL(vkit.App("cu_FromDifference", A, B), zl(got)))
 	}
 	ua, ub := toCU(a), toCU(b)
 	var r bool
 	if p, _ := try(func() { r = ua.Contains(ub) }); !p {
-		c.Check(lbl("Contains", a, b), eqB(vkit.App("cu_Contains", A, B), r))
+		s.t.check(lbl("Contains", a, b), eqB(vkit.App("cu_Contains", A, B), r))
 	}
 	if p, _ := try(func() { r = ua.Intersects(ub) }); !p {
-		c.Check(lbl("Intersects", a, b), eqB(vkit.App("cu_Intersects", A, B), r))
+		s.t.check(lbl("Intersects", a, b), eqB(vkit.App("cu_Intersects", A, B), r))
 	}
 }
 
 func (s *S) tProbe(a []uint64, id uint64) {
-	c := s.c
-	A, I := zl(a), vkit.U(id)
+	A, I := zl(a), hz(id)
 	ua := toCU(a)
 	var r bool
 	if p, _ := try(func() { r = ua.ContainsCellID(s2.CellID(id)) }); !p {
-		c.Check(lbl(fmt.Sprintf("ContainsCellID %x", id), a), eqB(vkit.App("cu_ContainsCellID", A, I), r))
+		s.t.check(lbl(fmt.Sprintf("ContainsCellID %x", id), a), eqB(vkit.App("cu_ContainsCellID", A, I), r))
 	}
 	if p, _ := try(func() { r = ua.IntersectsCellID(s2.CellID(id)) }); !p {
-		c.Check(lbl(fmt.Sprintf("IntersectsCellID %x", id), a), eqB(vkit.App("cu_IntersectsCellID", A, I), r))
+		s.t.check(lbl(fmt.Sprintf("IntersectsCellID %x", id), a), eqB(vkit.App("cu_IntersectsCellID", A, I), r))
 	}
 	var got []uint64
 	if p, _ := try(func() { got = fromCU(s2.CellUnionFromIntersectionWithCellID(toCU(a), s2.CellID(id))) }); !p {
-		c.Check(lbl(fmt.Sprintf("FromIntersectionWithCellID %x", id), a), eqL(vkit.App("cu_FromIntersectionWithCellID", A, I), zl(got)))
+		s.t.check(lbl(fmt.Sprintf("FromIntersectionWithCellID %x", id), a), eqL(vkit.App("cu_FromIntersectionWithCellID", A, I), zl(got)))
 	}
 	// lowerBound(begin, end, id) on a random window 0 <= begin <= end <= len
 	e := s.g.n(len(a) + 1)
@@ -406,8 +435,8 @@ func (s *S) tProbe(a []uint64, id uint64) {
 	}
 	var lb int
 	if p, _ := try(func() { lb = s2.VerifC11LowerBound(toCU(a), b, e, s2.CellID(probe)) }); !p {
-		c.Check(lbl(fmt.Sprintf("lowerBound %d %d %x", b, e, probe), a),
-			eqZ(vkit.App("cu_lowerBound", A, vkit.Z(int64(b)), vkit.Z(int64(e)), vkit.U(probe)), vkit.Z(int64(lb))))
+		s.t.check(lbl(fmt.Sprintf("lowerBound %d %d %x", b, e, probe), a),
+			eqZ(vkit.App("cu_lowerBound", A, vkit.Z(int64(b)), vkit.Z(int64(e)), hz(probe)), vkit.Z(int64(lb))))
 	}
 }
 
@@ -509,13 +538,13 @@ func (s *S) denorm1(in []uint64, class string) {
 	if !eqIDs(got, want) {
 		c.Violate("CellUnion.Denormalize", "Denormalize output is not: each cell replaced by its descendants at the first admissible level", rep)
 	}
-	if s.t.ok("denorm") {
+	if s.t.left("denorm") > 0 && len(x) <= 8 {
 		// [T] also with level_mod outside 1..3 (0, 4, 5): the code accepts it
 		lm := levelMod
 		if g.n(3) == 0 {
 			lm = []int{0, 4, 5}[g.n(3)]
 		}
-		ok := true
+		total := 0
 		for _, id := range x {
 			// mirror of the implementation's level rule, only to bound the output size
 			nl := oLevel(id)
@@ -529,13 +558,15 @@ func (s *S) denorm1(in []uint64, class string) {
 				nl = 30
 			}
 			if nl-oLevel(id) > 4 {
-				ok = false
+				total += 1 << 20
+			} else {
+				total += 1 << uint(2*(nl-oLevel(id)))
 			}
 		}
-		if ok && len(x) <= 12 {
+		if total <= 150 && s.t.ok("denorm") {
 			u := toCU(x)
 			u.Denormalize(minLevel, lm)
-			c.Check(lbl(fmt.Sprintf("Denormalize %d %d", minLevel, lm), x),
+			s.t.check(lbl(fmt.Sprintf("Denormalize %d %d", minLevel, lm), x),
 				eqL(vkit.App("cu_Denormalize", zl(x), vkit.Z(int64(minLevel)), vkit.Z(int64(lm))), zl(fromCU(u))))
 		}
 	}
@@ -628,8 +659,8 @@ func (s *S) range1() {
 	} else if !eqIDs(got, want) {
 		c.Violate("CellUnion.FromRange", "CellUnionFromRange is not the minimal (normalized) tiling of the range", rep)
 	}
-	if s.t.ok("range") && len(got) <= 130 {
-		c.Check(fmt.Sprintf("FromRange %x %x", b, e), eqL(vkit.App("cu_FromRange", vkit.U(b), vkit.U(e)), zl(got)))
+	if len(got) <= 130 && s.t.ok("range") {
+		s.t.check(fmt.Sprintf("FromRange %x %x", b, e), eqL(vkit.App("cu_FromRange", hz(b), hz(e)), zl(got)))
 	}
 }
 
@@ -699,6 +730,6 @@ func (s *S) maxTile1() {
 			map[string]interface{}{"id": fmt.Sprintf("0x%016x", id), "limit": fmt.Sprintf("0x%016x", limit)})
 	}
 	if s.t.ok("maxtile") {
-		c.Check(fmt.Sprintf("MaxTile %x %x", id, limit), eqZ(vkit.App("cu_MaxTile", vkit.U(id), vkit.U(limit)), vkit.U(got)))
+		s.t.check(fmt.Sprintf("MaxTile %x %x", id, limit), eqZ(vkit.App("cu_MaxTile", hz(id), hz(limit)), hz(got)))
 	}
 }
